@@ -251,9 +251,31 @@ def preq(s, num=int):
     return {f'r{a}': num(b) for a, b in (e.split(':') for e in plist(s, ';'))}
 
 
+class PoolsRM(_rmmod.ResourceManager):
+    """a user subclass of the resource manager with a length (the number of declared pools): an object that is FALSY
+    while no pool has been declared, e.g. when it is handed to System(...).  A correct library tests `is None` /
+    `== None`, not truthiness."""
+
+    def __len__(self):
+        return len(getattr(self, '_resources', ()))
+
+
 class FullRunner(Runner):
     probe = False        # C03: offer every ready part to its downstreams on a deep copy at clock advances
     valcheck = False     # C16: check value bookkeeping on the live objects after every event
+
+    def make_system(self):
+        """by scenario number: the default manager, a manager of a user subclass that is falsy when the System is
+        built, an explicitly passed plain manager.  The harness keeps working with the object it passed in, as a
+        user does (`self.rm`)."""
+        k = self.scen_no % 3
+        if k == 0:
+            s = System()
+            self.rm = s.resource_manager
+        else:
+            self.rm = PoolsRM() if k == 1 else _rmmod.ResourceManager()
+            s = System(resource_manager=self.rm) if self.scen_no % 2 else System(self.rm)
+        return s
 
     def reset(self):
         super().reset()
@@ -576,7 +598,7 @@ class FullRunner(Runner):
 
     def do_op_ext(self, toks):
         op = toks[0]
-        rm = self.system.resource_manager
+        rm = self.rm
         env = self.env
         if op == 'addres':
             rm.add_resources(f'r{toks[1]}', self.N(toks[2]))
@@ -826,7 +848,7 @@ class FullRunner(Runner):
         self.records = []
 
     def dump_ext(self):
-        rm = self.system.resource_manager
+        rm = self.rm
         o = self.out
         if self.valcheck:
             self.dump_ext_values()
